@@ -507,6 +507,37 @@ func checkSummaryOrder(p *Program, r *Result, vf *vectorFacts) {
 			return true
 		})
 	}
+	if len(order) == 0 {
+		// table-driven form: the groups are listed by an unexported helper the section writer iterates over
+		var scan func(d *ast.FuncDecl, depth int)
+		scan = func(d *ast.FuncDecl, depth int) {
+			ast.Inspect(d.Body, func(n ast.Node) bool {
+				switch x := n.(type) {
+				case *ast.Ident:
+					if strings.HasPrefix(x.Name, "Op") {
+						if c, ok := g.info.ObjectOf(x).(*types.Const); ok {
+							if nt, ok := c.Type().(*types.Named); ok && nt.Obj().Name() == "OpCode" {
+								name := strings.TrimPrefix(x.Name, "Op")
+								if len(order) == 0 || order[len(order)-1] != name {
+									order = append(order, name)
+								}
+							}
+						}
+					}
+				case *ast.CallExpr:
+					if depth > 0 {
+						if fn := g.calleeOf(x); fn != nil && !fn.Exported() {
+							if hd := g.decls[fn]; hd != nil && hd.Body != nil && hd != d {
+								scan(hd, depth-1)
+							}
+						}
+					}
+				}
+				return true
+			})
+		}
+		scan(fd, 2)
+	}
 	pos := map[string]int{}
 	for i, o := range order {
 		if _, had := pos[o]; !had {
